@@ -22,6 +22,8 @@ namespace ratio
     EXECUTOR_EXPORT void executor::tick()
     {
         LOG("current time: " << to_string(current_time));
+        if (xi_violated)
+            throw execution_exception();
     manage_tick:
         while (!pulses.empty() && *pulses.cbegin() <= current_time)
         { // we have something to do..
@@ -94,7 +96,7 @@ namespace ratio
 
             if (delays)
             { // we have some delays: we propagate and remove new possible flaws..
-                if (!slv.get_sat_core().propagate() || !slv.solve())
+                if (!slv.get_sat_core().propagate() || !slv.solve() || xi_violated)
                     throw execution_exception();
                 goto manage_tick;
             }
@@ -211,7 +213,7 @@ namespace ratio
         for (const auto &atm : atoms)
             cnfl.push_back(lit(atm->get_sigma(), false));
         // we backtrack to a level at which we can analyze the conflict..
-        if (!backtrack_analyze_and_backjump() || !slv.solve())
+        if (!backtrack_analyze_and_backjump() || !slv.solve() || xi_violated)
             throw execution_exception();
     }
 
@@ -238,10 +240,12 @@ namespace ratio
 
     void executor::solution_found()
     {
+        // notice that this method is invoked from within a noexcept notification: the failure is reported by the next 'tick'/'failure'..
         switch (slv.get_sat_core().value(xi))
         {
         case False: // the plan can't be executed anymore..
-            throw execution_exception();
+            xi_violated = true;
+            return;
         case Undefined: // we enforce the xi variable..
             slv.take_decision(xi);
             break;
@@ -249,7 +253,8 @@ namespace ratio
         switch (slv.get_sat_core().value(xi))
         {
         case False: // the plan can't be executed anymore..
-            throw execution_exception();
+            xi_violated = true;
+            return;
         case Undefined: // we attempt to solve the problem again..
             slv.solve();
             break;
